@@ -20,6 +20,11 @@ type compiled struct {
 	excludeZones   []string
 	excludeAv4     []*net.IPNet
 	excludeAAAA    []*net.IPNet
+
+	// clientsRestricted records that client_networks was configured,
+	// even when none of its entries parsed: a typo must not turn
+	// "only these clients" into "every client".
+	clientsRestricted bool
 }
 
 // compiledPrefix is one Pref64 entry pre-validated and tagged with
@@ -121,6 +126,10 @@ func compileConfig(cfg *config.Config) *compiled {
 	}
 
 	for _, raw := range c.ClientNetworks {
+		if strings.TrimSpace(raw) == "" {
+			continue
+		}
+		out.clientsRestricted = true
 		_, n, err := net.ParseCIDR(strings.TrimSpace(raw))
 		if err != nil {
 			zlog.Error("DNS64 client network parse failed", "cidr", raw, "error", err.Error())
@@ -215,9 +224,10 @@ func (c *compiled) shouldExcludeAAAA(ip net.IP) bool {
 
 // clientEligible reports whether ip should receive DNS64 synthesis.
 // An empty client-network list is treated as "all clients" — same
-// shape as accesslist's default.
+// shape as accesslist's default. A configured list whose entries all
+// failed to parse admits nobody, as an access list of bad entries does.
 func (c *compiled) clientEligible(ip net.IP) bool {
-	if len(c.clientNetworks) == 0 {
+	if len(c.clientNetworks) == 0 && !c.clientsRestricted {
 		return true
 	}
 	if ip == nil {
